@@ -156,7 +156,10 @@ type Env struct {
 	T    *testing.T
 	Tape *Tape
 
-	mu    sync.Mutex
+	mu sync.Mutex
+	// imu guards the environment's own state (log, probes, parked goroutines ...); mu above is left to the scenarios for
+	// their variables, so a scenario may call any Env method while it holds mu
+	imu   sync.Mutex
 	log   []string
 	notes []string
 	viol  []Violation
@@ -214,22 +217,22 @@ func (e *Env) Now() time.Duration { return time.Since(e.start) }
 
 // Logf appends a line to the event log. Only the simulator goroutine may call it.
 func (e *Env) Logf(format string, a ...any) {
-	e.mu.Lock()
+	e.imu.Lock()
 	e.log = append(e.log, fmt.Sprintf("#%d t=%v ", e.phase, e.Now())+fmt.Sprintf(format, a...))
-	e.mu.Unlock()
+	e.imu.Unlock()
 }
 
 // Notef records a line from a library/handler goroutine; lines of one phase are
 // sorted before they enter the log (per-phase canonical form).
 func (e *Env) Notef(format string, a ...any) {
 	s := fmt.Sprintf(format, a...)
-	e.mu.Lock()
+	e.imu.Lock()
 	e.notes = append(e.notes, s)
-	e.mu.Unlock()
+	e.imu.Unlock()
 }
 
 func (e *Env) flushNotes() {
-	e.mu.Lock()
+	e.imu.Lock()
 	if len(e.notes) > 0 {
 		sort.Strings(e.notes)
 		for _, n := range e.notes {
@@ -237,7 +240,7 @@ func (e *Env) flushNotes() {
 		}
 		e.notes = e.notes[:0]
 	}
-	e.mu.Unlock()
+	e.imu.Unlock()
 }
 
 // Wait runs the system to quiescence and closes the current phase.
@@ -245,12 +248,12 @@ func (e *Env) Wait() {
 	synctest.Wait()
 	e.flushViolations()
 	e.flushNotes()
-	e.mu.Lock()
+	e.imu.Lock()
 	e.phase++
 	e.phaseNo.Store(int32(e.phase))
 	ch := e.phaseCh
 	e.phaseCh = nil
-	e.mu.Unlock()
+	e.imu.Unlock()
 	if ch != nil {
 		close(ch) // goroutines that hold something "until the next phase" go on now
 	}
@@ -259,8 +262,8 @@ func (e *Env) Wait() {
 
 // NextPhase returns a channel that is closed at the next phase boundary.
 func (e *Env) NextPhase() <-chan struct{} {
-	e.mu.Lock()
-	defer e.mu.Unlock()
+	e.imu.Lock()
+	defer e.imu.Unlock()
 	if e.tearing {
 		c := make(chan struct{})
 		close(c)
@@ -273,7 +276,7 @@ func (e *Env) NextPhase() <-chan struct{} {
 }
 
 // Phase returns the current phase number.
-func (e *Env) Phase() int { e.mu.Lock(); defer e.mu.Unlock(); return e.phase }
+func (e *Env) Phase() int { e.imu.Lock(); defer e.imu.Unlock(); return e.phase }
 
 // Budget reports whether the run may continue.
 func (e *Env) Budget() bool { return e.Phase() < e.MaxPhases }
@@ -289,23 +292,23 @@ func (e *Env) Sleep(d time.Duration) {
 // Go starts a goroutine inside the bubble.
 func (e *Env) Go(f func()) { go f() }
 
-func (e *Env) Fault(kind string) { e.mu.Lock(); e.Faults[kind]++; e.mu.Unlock() }
-func (e *Env) Probe(name string) { e.mu.Lock(); e.Probes[name]++; e.mu.Unlock() }
-func (e *Env) NonTrivial()       { e.mu.Lock(); e.nontriv = true; e.mu.Unlock() }
-func (e *Env) MarkRacy()         { e.mu.Lock(); e.racy = true; e.mu.Unlock() }
+func (e *Env) Fault(kind string) { e.imu.Lock(); e.Faults[kind]++; e.imu.Unlock() }
+func (e *Env) Probe(name string) { e.imu.Lock(); e.Probes[name]++; e.imu.Unlock() }
+func (e *Env) NonTrivial()       { e.imu.Lock(); e.nontriv = true; e.imu.Unlock() }
+func (e *Env) MarkRacy()         { e.imu.Lock(); e.racy = true; e.imu.Unlock() }
 func (e *Env) Real(c ...string) {
-	e.mu.Lock()
+	e.imu.Lock()
 	for _, x := range c {
 		e.real[x] = true
 	}
-	e.mu.Unlock()
+	e.imu.Unlock()
 }
 func (e *Env) Stub(c ...string) {
-	e.mu.Lock()
+	e.imu.Lock()
 	for _, x := range c {
 		e.stub[x] = true
 	}
-	e.mu.Unlock()
+	e.imu.Unlock()
 }
 
 // Violate records a violation of rule with a discriminating signature. It takes only its own lock, so an
@@ -337,20 +340,20 @@ func (e *Env) flushViolations() {
 	e.vlog = nil
 	e.vmu.Unlock()
 	if len(v) > 0 {
-		e.mu.Lock()
+		e.imu.Lock()
 		e.log = append(e.log, v...)
-		e.mu.Unlock()
+		e.imu.Unlock()
 	}
 }
 
 // OnCleanup registers a function run during teardown (in reverse order).
-func (e *Env) OnCleanup(f func()) { e.mu.Lock(); e.cleanup = append(e.cleanup, f); e.mu.Unlock() }
+func (e *Env) OnCleanup(f func()) { e.imu.Lock(); e.cleanup = append(e.cleanup, f); e.imu.Unlock() }
 
 // ---------------------------------------------------------------- park points
 
 // EnablePark makes the given hits (0-based occurrence numbers) of site park.
 func (e *Env) EnablePark(site string, hits ...int) {
-	e.mu.Lock()
+	e.imu.Lock()
 	m := e.parkPlan[site]
 	if m == nil {
 		m = map[int]bool{}
@@ -359,14 +362,14 @@ func (e *Env) EnablePark(site string, hits ...int) {
 	for _, h := range hits {
 		m[h] = true
 	}
-	e.mu.Unlock()
+	e.imu.Unlock()
 }
 
 // EnableParkAll makes every hit of site park (micro-harness scheduling).
-func (e *Env) EnableParkAll(site string) { e.mu.Lock(); e.parkAll[site] = true; e.mu.Unlock() }
+func (e *Env) EnableParkAll(site string) { e.imu.Lock(); e.parkAll[site] = true; e.imu.Unlock() }
 
 // DisableParkAll stops parking at site (already parked goroutines stay parked).
-func (e *Env) DisableParkAll(site string) { e.mu.Lock(); delete(e.parkAll, site); e.mu.Unlock() }
+func (e *Env) DisableParkAll(site string) { e.imu.Lock(); delete(e.parkAll, site); e.imu.Unlock() }
 
 var debugSites = os.Getenv("VERIF_DEBUG_SITES") != ""
 
@@ -374,7 +377,7 @@ func (e *Env) yieldHook(site string, key uint64) {
 	if debugSites {
 		e.Notef("site %s hit=%d key=%x g=%d", site, e.SiteHits(site), key, goid())
 	}
-	e.mu.Lock()
+	e.imu.Lock()
 	n := e.siteHits[site]
 	e.siteHits[site] = n + 1
 	park := !e.tearing && (e.parkAll[site] || (e.parkPlan[site] != nil && e.parkPlan[site][n]))
@@ -393,7 +396,7 @@ func (e *Env) yieldHook(site string, key uint64) {
 		}
 		e.Probes["readerLoop.replacedWhileInHandler"]++
 	}
-	e.mu.Unlock()
+	e.imu.Unlock()
 	if park {
 		pg.Gid = goid()
 		<-pg.ch
@@ -402,45 +405,45 @@ func (e *Env) yieldHook(site string, key uint64) {
 
 // Parked returns the goroutines currently parked, in park order.
 func (e *Env) Parked() []*parkedG {
-	e.mu.Lock()
-	defer e.mu.Unlock()
+	e.imu.Lock()
+	defer e.imu.Unlock()
 	return append([]*parkedG(nil), e.parked...)
 }
 
 // Resume releases one parked goroutine.
 func (e *Env) Resume(pg *parkedG) {
-	e.mu.Lock()
+	e.imu.Lock()
 	for i, p := range e.parked {
 		if p == pg {
 			e.parked = append(e.parked[:i], e.parked[i+1:]...)
 			break
 		}
 	}
-	e.mu.Unlock()
+	e.imu.Unlock()
 	close(pg.ch)
 }
 
 // DisableAllParks stops all further parking (parked goroutines stay parked until resumed).
 func (e *Env) DisableAllParks() {
-	e.mu.Lock()
+	e.imu.Lock()
 	e.parkPlan = map[string]map[int]bool{}
 	e.parkAll = map[string]bool{}
-	e.mu.Unlock()
+	e.imu.Unlock()
 }
 
 // SiteHits returns how often a site was reached.
-func (e *Env) SiteHits(site string) int { e.mu.Lock(); defer e.mu.Unlock(); return e.siteHits[site] }
+func (e *Env) SiteHits(site string) int { e.imu.Lock(); defer e.imu.Unlock(); return e.siteHits[site] }
 
 // ---------------------------------------------------------------- gates and deterministic randomness
 
 func (e *Env) gateAcquire(g any) {
-	e.mu.Lock()
+	e.imu.Lock()
 	ch := e.gates[g]
 	if ch == nil {
 		ch = make(chan struct{}, 1)
 		e.gates[g] = ch
 	}
-	e.mu.Unlock()
+	e.imu.Unlock()
 	select {
 	case ch <- struct{}{}:
 	default:
@@ -450,9 +453,9 @@ func (e *Env) gateAcquire(g any) {
 }
 
 func (e *Env) gateRelease(g any) {
-	e.mu.Lock()
+	e.imu.Lock()
 	ch := e.gates[g]
-	e.mu.Unlock()
+	e.imu.Unlock()
 	if ch != nil {
 		select {
 		case <-ch:
@@ -462,10 +465,10 @@ func (e *Env) gateRelease(g any) {
 }
 
 func (e *Env) randRead(b []byte) bool {
-	e.mu.Lock()
+	e.imu.Lock()
 	e.randCtr++
 	s := e.randBase + e.randCtr*0x9e3779b97f4a7c15
-	e.mu.Unlock()
+	e.imu.Unlock()
 	for i := range b {
 		if i%8 == 0 {
 			_ = splitmix64(&s)
@@ -555,8 +558,8 @@ func Execute(t *testing.T, p *PropDef, tape *Tape, keepLog bool) (res *RunResult
 		})
 	}()
 	env.flushViolations()
-	env.mu.Lock()
-	defer env.mu.Unlock()
+	env.imu.Lock()
+	defer env.imu.Unlock()
 	res.Scenario = env.scenario
 	res.NonTrivial = env.nontriv
 	res.Viol = env.viol
@@ -586,7 +589,7 @@ func Execute(t *testing.T, p *PropDef, tape *Tape, keepLog bool) (res *RunResult
 }
 
 func (e *Env) teardown() {
-	e.mu.Lock()
+	e.imu.Lock()
 	e.tearing = true
 	if e.phaseCh != nil {
 		close(e.phaseCh)
@@ -596,7 +599,7 @@ func (e *Env) teardown() {
 	e.parked = nil
 	cl := e.cleanup
 	e.cleanup = nil
-	e.mu.Unlock()
+	e.imu.Unlock()
 	for _, pg := range parked {
 		close(pg.ch)
 	}
